@@ -21,6 +21,9 @@ Ops (JSON lists):
   ["Trash", [d...]]                    butler._datastore.trash(refs)        (first half of an unstore)
   ["EmptyTrash"]                       butler._datastore.emptyTrash()
   ["RegRemove", [d...]]                registry.removeDatasets(refs)        (must refuse when a datastore holds one)
+  ["Trash1", d]                        butler._datastore.trash(ref)         (a SINGLE ref: another code path, artifact checked first)
+  ["Ingest", d1, d2, run, key]         Butler.ingest(FileDataset(path, refs=[ref1, ref2]), transfer="copy"): ONE file for two
+                                       datasets of the same run and dataset type; ref2 has the sibling key sib(key)
 """
 from __future__ import annotations
 
@@ -45,6 +48,11 @@ def tname(k):
 
 def did(k):
     return {"instrument": "I", "detector": k % NDATA}
+
+
+def sib(k):
+    """The other data ID of the same dataset type used for the second ref of a two-ref ingest (Model/Removal.v `sib`)."""
+    return NDATA * (k // NDATA) + (k + 1) % NDATA
 
 
 class Driver:
@@ -104,7 +112,7 @@ class Driver:
             ref = self.ref(d, run, key)
             if self.sql.getDataset(self.uuid_of[d]) is None:
                 self.def_of[d] = (run, key)     # the id is free: this is the definition used for later probes of d
-            b.put({"d": d, "key": key, "run": run}, ref)
+            b.put({"d": d, "ds": [d] + self.sharers(run, key), "key": key, "run": run}, ref)
             try:
                 cr = b.get_dataset(self.uuid_of[d], datastore_records=True)
                 if cr is not None and cr._datastore_records:
@@ -149,7 +157,61 @@ class Driver:
         if k == "RegRemove":
             self.reg.removeDatasets([self.live_ref(d) for d in op[1]])
             return "Ok"
+        if k == "Trash1":
+            b._datastore.trash(self.live_ref(op[1]))
+            return "Ok"
+        if k == "Ingest":
+            import json
+            import tempfile
+            from lsst.daf.butler import FileDataset
+            _, d1, d2, run, key = op
+            key2 = sib(key)
+            r1, r2 = self.ref(d1, run, key), self.ref(d2, run, key2)
+            for d, kk in ((d1, key), (d2, key2)):
+                if self.sql.getDataset(self.uuid_of[d]) is None:
+                    self.def_of[d] = (run, kk)
+            fd, path = tempfile.mkstemp(suffix=".yaml", prefix="ingest_", dir=os.path.dirname(self.root))
+            try:
+                os.write(fd, json.dumps({"d": d1, "ds": [d1, d2] + self.sharers(run, key), "key": key, "run": run}).encode())
+                os.close(fd)
+                b.ingest(FileDataset(path=path, refs=[r1, r2]), transfer="copy")
+            finally:
+                os.remove(path)
+            for d in (d1, d2):
+                try:
+                    cr = b.get_dataset(self.uuid_of[d], datastore_records=True)
+                    if cr is not None and cr._datastore_records:
+                        self.carried[d] = cr
+                except Exception:  # noqa: BLE001
+                    pass
+            try:
+                rel = os.path.relpath(b.getURI(r1).ospath, self.root)
+                self.path_of[rel] = (run, key)
+            except Exception:  # noqa: BLE001
+                pass
+            return "Ok"
         raise ValueError(f"unknown op {op}")
+
+    def sharers(self, run, key):
+        """Ids whose datastore records name the artifact written for (run, key): a put / ingest that rewrites the file keeps
+        the payload valid for them (the harness' notion of 'readable' is 'get returns a payload written for this id')."""
+        rels = [rel for rel, rk in self.path_of.items() if rk == (run, key)]
+        if not rels:
+            return []
+        con = sqlite3.connect(f"file:{self.dbfile}?mode=ro", uri=True, timeout=30)
+        try:
+            out = []
+            for rel in rels:
+                for (i,) in con.execute("select dataset_id from file_datastore_records where path = ?", (rel,)):
+                    try:
+                        u = uuid.UUID(bytes=i) if isinstance(i, bytes) else uuid.UUID(str(i))
+                    except Exception:  # noqa: BLE001
+                        continue
+                    if u in self.n_of:
+                        out.append(self.n_of[u])
+            return sorted(set(out))
+        finally:
+            con.close()
 
     def step(self, op):
         try:
@@ -260,7 +322,7 @@ class Driver:
             for d in order:
                 try:
                     v = b.get(refs[d])
-                    rd.append(1 if isinstance(v, dict) and v.get("d") == d else 2)
+                    rd.append(1 if isinstance(v, dict) and (v.get("d") == d or d in v.get("ds", ())) else 2)
                 except Exception:  # noqa: BLE001
                     rd.append(0)
             obs["readable"] = rd
@@ -310,6 +372,9 @@ class Driver:
         obs["files"] = sorted(files)
         obs["unknown_files"] = sorted(unknown)
         obs.update(self.raw())
+        # the definition (run, key) of every dataset the registry has (harness bookkeeping): lets the oracle tell a dataset whose
+        # records name the artifact written for ITSELF from the second ref of a two-ref ingest
+        obs["defs"] = sorted([r[0], self.def_of[r[0]][0], self.def_of[r[0]][1]] for r in obs["raw_ds"] if r[0] in self.def_of)
         return obs
 
     def raw(self):
